@@ -167,6 +167,14 @@ Proof.
     destruct (fire_tenv (EvSetV vo vk r) h5) as (o6 & h6 & E6).
     destruct o6 as [w|w]; [exists (Ret r)|exists (Thr w)]; exists h6; intros; rewrite E1; cbn [bind]; rewrite E2; cbn [bind];
       rewrite E3; cbn [bind]; rewrite E4; cbn [bind]; rewrite E5; cbn [bind]; rewrite E6; reflexivity.
+  - (* o[k] *)
+    destruct Hs as (Ho & Hk).
+    destruct (IHe1 Ho h t) as (o1 & h1 & E1).
+    destruct o1 as [vo|vo]; [|exists (Thr vo), h1; intros; rewrite E1; reflexivity].
+    destruct (IHe2 Hk h1 t) as (o2 & h2 & E2).
+    destruct o2 as [vk|vk]; [|exists (Thr vk), h2; intros; rewrite E1; cbn [bind]; rewrite E2; reflexivity].
+    destruct (fire_tenv (EvGetV vo vk) h2) as (o3 & h3 & E3).
+    exists o3, h3. intros. rewrite E1. cbn [bind]. rewrite E2. cbn [bind]. apply E3.
 Qed.
 
 (** ** Operands that stay in place *)
@@ -312,18 +320,6 @@ Notation rw := (rw instr lit_ok awc plus_on).
 Lemma rw_add_eq l r c :
   rw (Add l r) c = let '(l', c1) := rw l c in let '(r', c2) := rw r c1 in rw_add l' r' c2.
 Proof. cbn [Sem.rw]. rewrite plus_true. reflexivity. Qed.
-
-(** With the plus operator configured the root only shows through parentheses: [rw_root] is [rw] from counter 0. *)
-Lemma rw_root_is_rw : forall e, rw_root instr lit_ok awc plus_on e = fst (rw e 0).
-Proof.
-  induction e; try reflexivity.
-  - cbn [rw_root]. rewrite plus_true. reflexivity.
-  - cbn [rw_root Sem.rw]. rewrite IHe. destruct (rw e 0) as [x' c1]. reflexivity.
-  - cbn [rw_root]. rewrite plus_true. reflexivity.
-  - cbn [rw_root]. rewrite plus_true. reflexivity.
-  - cbn [rw_root Sem.rw]. rewrite IHe. destruct (rw e 0) as [x' c1]. reflexivity.
-  - cbn [rw_root]. rewrite plus_true. reflexivity.
-Qed.
 
 Lemma rw_addasgc_eq o k e c :
   rw (AddAsgC o k e) c =
@@ -475,6 +471,9 @@ Proof.
     destruct (is_lit o' || is_triv o' && negb (negb (is_triv k'))); destruct (negb (is_triv k'));
       destruct (rw_add _ (group_sum e') _) as [sum c6]; simpl in Hk;
       destruct Hk as [Hk | (a & b & Hk)]; discriminate.
+  - (* o[k]: the result is a property read *)
+    cbn [Sem.rw] in Hk. destruct (rw e1 c) as [o' c1]. destruct (rw e2 c1) as [k' c2]. simpl in Hk.
+    destruct Hk as [Hk | (a & b & Hk)]; discriminate.
 Qed.
 
 (* Main statement: same outcome, same history, and only temporaries of the allocated range are touched. *)
@@ -1358,6 +1357,56 @@ Proof.
           - rewrite upd_other by lia. rewrite F2 by lia. rewrite upd_same. reflexivity.
           - rewrite upd_same. reflexivity. }
         exists t'. split; [exact Ev | frame_tac].
+  - (* property read with a computed key: congruence *)
+    destruct Hs as [Ho Hk].
+    pose proof (IHe1 Ho c) as I1. cbn [Sem.rw]. destruct (rw e1 c) as [o' c1] eqn:Ro. simpl in I1.
+    pose proof (IHe2 Hk c1) as I2. destruct (rw e2 c1) as [k' c2] eqn:Rk. simpl in I2.
+    assert (Hc1 : c <= c1) by (destruct (I1 h t); auto).
+    assert (Hc2 : c1 <= c2) by (destruct (I2 h t); auto).
+    cbn [fst snd]. split; [lia|]. intros o h' E.
+    destruct (src_tenv e1 Ho h t) as (o1 & h1 & E1).
+    destruct (I1 h t) as (_ & K1). destruct (K1 o1 h1 E1) as (t1 & El & F1).
+    rewrite eval_getc, El. specialize (E t). rewrite eval_getc, E1 in E.
+    destruct o1 as [vo|vo]; cbn [bind fst snd] in *; [|inversion E; subst o h'; eexists; split; [reflexivity|frame_tac]].
+    destruct (src_tenv e2 Hk h1 t) as (o2 & h2 & E2).
+    destruct (I2 h1 t1) as (_ & K2). destruct (K2 o2 h2 E2) as (t2 & Ek & F2).
+    rewrite Ek. rewrite E2 in E.
+    destruct o2 as [vk|vk]; cbn [bind fst snd] in *; [|inversion E; subst o h'; eexists; split; [reflexivity|frame_tac]].
+    destruct (fire_tenv (EvGetV vo vk) h2) as (o3 & h3 & E3). rewrite E3 in *.
+    inversion E; subst o h'. eexists; split; [reflexivity|frame_tac].
+Qed.
+
+(** ** The expression at the root of the visitor.  The function the check ties to the code is [rw_root]: parentheses and
+    property reads at the root are transparent -- what stands under them is a root again, numbered from 0 --, and so are
+    the object and the key of a computed read.  With the plus operator configured everything else is [rw] from counter 0. *)
+Theorem rw_root_correct e : src e -> forall (h : hist) (t : tenv) o h',
+  (forall t2 : tenv, eval e (h, t2) = (o, (h', t2))) ->
+  exists t', eval (rw_root instr lit_ok awc plus_on e) (h, t) = (o, (h', t')).
+Proof.
+  assert (D : forall e0, src e0 -> forall (h : hist) (t : tenv) o h',
+              (forall t2 : tenv, eval e0 (h, t2) = (o, (h', t2))) ->
+              exists t', eval (fst (rw e0 0)) (h, t) = (o, (h', t'))).
+  { intros e0 Hs h t o h' E. destruct (rw_correct e0 Hs 0 h t) as (_ & K). destruct (K o h' E) as (t' & Ev & _). eauto. }
+  assert (IP : forall (A : Type) (x y : A), (if plus_on then x else y) = x) by (intros; rewrite plus_true; reflexivity).
+  induction e; intros Hs h t o h' E; cbn [rw_root]; try rewrite IP; try (apply D; assumption).
+  - (* parentheses *)
+    simpl in Hs. apply (IHe Hs h t o h'). exact E.
+  - (* property read *)
+    simpl in Hs. destruct (src_tenv e Hs h t) as (o1 & h1 & E1).
+    destruct (IHe Hs h t o1 h1 E1) as (t1 & Ev).
+    rewrite eval_get, Ev. specialize (E t). rewrite eval_get, E1 in E.
+    destruct o1 as [vo|vo]; cbn [bind] in *; [|inversion E; subst; eauto].
+    destruct (fire_tenv (EvGet vo m) h1) as (o2 & h2 & E2). rewrite E2 in *. inversion E; subst. eauto.
+  - (* computed property read *)
+    simpl in Hs. destruct Hs as [Ho Hk]. destruct (src_tenv e1 Ho h t) as (o1 & h1 & E1).
+    destruct (IHe1 Ho h t o1 h1 E1) as (t1 & Ev1).
+    rewrite eval_getc, Ev1. specialize (E t). rewrite eval_getc, E1 in E.
+    destruct o1 as [vo|vo]; cbn [bind] in *; [|inversion E; subst; eauto].
+    destruct (src_tenv e2 Hk h1 t) as (o2 & h2 & E2).
+    destruct (IHe2 Hk h1 t1 o2 h2 E2) as (t2 & Ev2).
+    rewrite Ev2. rewrite E2 in E.
+    destruct o2 as [vk|vk]; cbn [bind] in *; [|inversion E; subst; eauto].
+    destruct (fire_tenv (EvGetV vo vk) h2) as (o3 & h3 & E3). rewrite E3 in *. inversion E; subst. eauto.
 Qed.
 
 End Proofs.
